@@ -107,9 +107,10 @@ def numpy_engine():
     return Engine()
 
 
-def step_numpy(topo, P, X, flags=None, engine=None, order=None, copy_inputs=False):
-    """build + step with the real NumPy engine; returns (built, next-state dict)."""
-    built = T_.build(topo, P, order=order)
+def step_numpy(topo, P, X, flags=None, engine=None, order=None, copy_inputs=False, builder=None):
+    """build + step with the real NumPy engine; returns (built, next-state dict).
+    builder: optional callable(topo, P, first_engine) -> Built for non-standard construction histories."""
+    built = builder(topo, P, None) if builder else T_.build(topo, P, order=order)
     eng = engine or numpy_engine()
     ic = init_conditions(built, X)
     built.net.step(init_conditions=ic, engine=eng, **(flags or NOFLAGS), **T_.model_kwargs(topo, P))
@@ -126,7 +127,7 @@ class NPath:
         self.shapes = shapes  # (el, state) -> (in shape, out shape)
 
 
-def nsym(topo, style="array", flags=None, domain=(), numeric=None, order=None, hook=None):
+def nsym(topo, style="array", flags=None, domain=(), numeric=None, order=None, hook=None, builder=None):
     """All paths of the real NumPy-engine step on symbolic arrays."""
     paths = []
     holder = {}
@@ -134,7 +135,7 @@ def nsym(topo, style="array", flags=None, domain=(), numeric=None, order=None, h
     def fn():
         P = sym_params(topo, numeric)
         X = sym_inputs(topo, style)
-        built, nxt = step_numpy(topo, P, X, flags, order=order)
+        built, nxt = step_numpy(topo, P, X, flags, order=order, builder=builder)
         holder["X"], holder["built"] = X, built
         if hook:
             hook(built, P, X)
@@ -176,11 +177,11 @@ def cas_params(topo, symtype, numeric=None):
 
 
 def cas_function(topo, symtype="SX", numeric=None, compact=0, more_out=False, flags=None, order=None,
-                 declare=None, dual_route=False, rename=None):
+                 declare=None, dual_route=False, rename=None, builder=None):
     """real step with the CasADi engine + to_function.  Returns (F, built, P, symbolic-params).
     `declare`: optional ordered list of parameter names to declare (default: all symbolic ones)."""
     P, symbolic = cas_params(topo, symtype, numeric)
-    built = T_.build(topo, P, order=order, rename=rename)
+    built = builder(topo, P, casadi_engine(symtype)) if builder else T_.build(topo, P, order=order, rename=rename)
     eng = casadi_engine(symtype)
     kw = T_.model_kwargs(topo, P)
     built.net.step(engine=eng, **(flags or NOFLAGS), **kw)
